@@ -98,7 +98,16 @@ const LT: [&str; 3] = ["'a", "'b", "'c"];
 /// where predicates whose bounded type is a qualified / absolute / multi-segment path or not a path at all
 const EXTRA_PREDS: [&str; 5] = ["::core::primitive::u8: Copy", "core::primitive::u16: Copy", "<u8 as ::core::ops::Add>::Output: Copy", "[u8; 3]: Copy", "(u8, i8): Copy"];
 /// where predicates over fn lifetime 'a whose lifetime sits inside `(..)` / `[..]` only (they must stay on the method)
-const GROUPED_PREDS: [&str; 4] = ["(&'a u8, u8): Clone", "[&'a u8; 1]: Clone", "fn(&'a u8) -> u8: Copy", "Box<dyn Fn(&'a u8) -> u8>: Sized"];
+/// (the last three: a lifetime-free group first, the lifetime after it)
+const GROUPED_PREDS: [&str; 7] = [
+    "(&'a u8, u8): Clone",
+    "[&'a u8; 1]: Clone",
+    "fn(&'a u8) -> u8: Copy",
+    "Box<dyn Fn(&'a u8) -> u8>: Sized",
+    "(u8, i8): LtLabel<'a>",
+    "[u8; 2]: LtLabel<'a>",
+    "fn(u8) -> u8: LtLabel<'a>",
+];
 
 impl Sig {
     fn deps_has_ref(&self) -> bool {
@@ -556,7 +565,7 @@ pub fn gen_sig(t: &mut Tape, excl: &Excl) -> Sig {
         gen_bound_where: t.flip(),
         explicit_outlives: !excl.lifetime_predicates && t.flip(),
         extra_where: if t.chance(1, 6) { Some(t.choose(5)) } else { None },
-        grouped_lt_pred: if n_lifetimes >= 1 && !excl.lifetime_predicates && t.chance(1, 5) { Some(t.choose(4)) } else { None },
+        grouped_lt_pred: if n_lifetimes >= 1 && !excl.lifetime_predicates && t.chance(1, 5) { Some(t.choose(7)) } else { None },
         has_const,
         params,
         ret,
@@ -592,7 +601,8 @@ fn header() -> String {
     let mut s = String::from(
         "#![allow(warnings)]\nuse ::core::marker::PhantomData;\nuse ::core::future::Future;\n\
          pub struct App;\npub struct Conf { pub s: String }\npub mod inner { pub struct PConf { pub s: String } }\npub struct GConf<T> { pub s: String, pub t: T }\npub type A = ::entrait::Impl<App>;\n\
-         fn out<F: Future>(_: &F) -> PhantomData<F::Output> { PhantomData }\nfn is_send<T: Send>(_: &T) {}\n",
+         fn out<F: Future>(_: &F) -> PhantomData<F::Output> { PhantomData }\nfn is_send<T: Send>(_: &T) {}\n\
+         pub trait LtLabel<'l> {}\nimpl<'l> LtLabel<'l> for (u8, i8) {}\nimpl<'l> LtLabel<'l> for [u8; 2] {}\nimpl<'l> LtLabel<'l> for fn(u8) -> u8 {}\n",
     );
     for b in 0..3 {
         s.push_str(&format!("pub trait B{b} {{}}\nimpl B{b} for A {{}}\n"));
